@@ -466,8 +466,14 @@ def g_char(src):
     return src.choice(cls)
 
 
+LONG_LENGTHS = [9, 12, 16, 17, 20, 21, 31, 32, 33, 34, 48, 64, 65, 100, 129]     # beyond the 0..8 of the statement: the thresholds at which
+                                                                                  # sorting / hashing / buffer strategies of a library switch
+
 def g_text(src, lo=0, hi=8):
-    return "".join(g_char(src) for _ in range(src.int(lo, hi)))
+    n = src.int(lo, hi)
+    if hi >= 8 and src.bool(0.04):
+        n = src.choice(LONG_LENGTHS)
+    return "".join(g_char(src) for _ in range(n))
 
 
 def g_str(src, lo=0, hi=8):
@@ -515,16 +521,25 @@ def g_value(src, depth=0):
     return g_ctx(src, depth)
 
 
-def g_from_pool(src, n, item):
-    """n items drawn from a small pool, so that duplicates are the rule."""
+def g_from_pool(src, n, item, wide=False):
+    """n items drawn from a small pool, so that duplicates are the rule (wide: a pool about as big as the list, most items distinct)."""
     if n == 0:
         return []
-    pool = [item(src) for _ in range(src.int(1, 4))]
+    pool = [item(src) for _ in range(src.int(1, 4) if not wide else src.int(max(n // 2, 1), n))]
     return [src.choice(pool) for _ in range(n)]
+
+
+def g_wide_num(src):
+    return N(str(src.int(-60, 60)))
 
 
 def g_list(src, depth=0, hi=8, item=None):
     n = src.int(0, hi)
+    if hi >= 8 and src.bool(0.05):
+        # a long list (the statement names 0..8; longer ones are in every function's domain all the same)
+        n = src.choice(LONG_LENGTHS)
+        it = item or src.weighted([(3, g_wide_num), (1, lambda s: g_str(s, 0, 3)), (1, lambda s: g_value(s, depth))])
+        return {"l": g_from_pool(src, n, it if it is not g_num else src.choice([g_num, g_wide_num]), wide=src.bool(0.7))}
     return {"l": g_from_pool(src, n, item or (lambda s: g_value(s, depth)))}
 
 
@@ -850,7 +865,11 @@ def g_agg_num(src):
 def gen_aggregate(f, item, alien):
     def gen(src):
         n = src.int(0, 8)
-        items = g_from_pool(src, n, item)
+        if src.bool(0.05):
+            n = src.choice(LONG_LENGTHS)
+            items = g_from_pool(src, n, g_wide_num if item is g_agg_num else item, wide=src.bool(0.7))
+        else:
+            items = g_from_pool(src, n, item)
         if items and src.bool(0.12):
             items[src.int(0, len(items) - 1)] = alien(src)
         if src.bool(0.25) and items:
